@@ -201,6 +201,8 @@ class ScribbleExec(O.Exec):
             if op.get("as_set"):
                 seq = set(seq)
             held["vertices"] = kw["vertices"] = seq
+            if str(op.get("as", "")).startswith("gen_raises"):
+                kw["vertices"] = self.as_kind(seq, op["as"])
         attrs = {"sim_tag": op.get("tag", 0)}
         held["attributes"] = attrs
         u = cls(attributes=attrs, **kw)
@@ -367,6 +369,7 @@ class C12(c05.C05):
         "scribble-arg:ends",
         "empty-whitelist",
         "scribble-with-live-generators",
+        "constructor-fed-by-failing-iterable",
     ]
 
     def make_config(self, rng):
@@ -466,6 +469,12 @@ class C12(c05.C05):
         vs = view.plain_vertices()
         op = {"op": "mk_universe", "new": st.namer.new("u"), "cls": "Universe", "tag": rng.randrange(6)}
         op["vertices"] = [rng.choice(vs) for _ in range(rng.choice([0, 1, 2, 3]))] if vs else []
+        if op["vertices"] and rng.random() < 0.15:
+            # the iterable fails part-way: the constructor raises, and the
+            # half-built universe stays reachable through the members it took
+            op["as"] = f"gen_raises:{rng.randint(1, len(op['vertices']))}"
+            st.stats["probe:constructor-fed-by-failing-iterable"] += 1
+            return op
         if rng.random() < 0.3:
             op["as_set"] = True
             op["vertices"] = list(dict.fromkeys(op["vertices"]))[:1]
